@@ -35,6 +35,7 @@ def run(ctx, rep):
     rep.rule('R-C05-3', 'file_post: DAMAGED => rename to .unrecoverable and no handle_utime; "recovered" only for FIXED and not DAMAGED', 3)
     rep.rule('R-C05-5', 'hash provenance: a freshly computed data hash is stored in a block only together with the commit to REP/BLK; REP -> DELETED always invalidates; new CHG blocks get ZERO or the DELETED predecessor\'s hash', 5)
 
+    C04.memhash_pairing(P, rep, 'R-C05-1p')
     # ---- R-C05-1
     f = P.fn('repair_step')
     rep.analysed(f)
